@@ -6,7 +6,7 @@ from abc import abstractmethod
 from collections import defaultdict
 from collections.abc import Collection
 from inspect import isabstract
-from threading import RLock
+from threading import RLock, local
 from typing import Any, DefaultDict, List
 
 from ..numpy_utils import _convert_numpy
@@ -72,24 +72,32 @@ class _LoadAndSave:
 
     def __init__(self, collection):
         self._collection = collection
+        # The lock to take is looked up through the collection because it
+        # depends on the resource the collection is bound to, which can change
+        # (e.g. JSONCollection.filename). The locks actually acquired are
+        # therefore remembered - per thread, since one context object serves
+        # all threads and may be entered recursively - so that __exit__
+        # releases exactly what the matching __enter__ acquired.
+        self._acquired = local()
 
     def __enter__(self):
-        self._collection._thread_lock.__enter__()
+        lock = self._collection._thread_lock
+        lock.__enter__()
         try:
             self._collection._load()
         except BaseException as error:
             # __exit__ is not called when __enter__ raises, so the lock must be
             # released here or it would stay held forever.
-            self._collection._thread_lock.__exit__(
-                type(error), error, error.__traceback__
-            )
+            lock.__exit__(type(error), error, error.__traceback__)
             raise
+        self._acquired.__dict__.setdefault("locks", []).append(lock)
 
     def __exit__(self, exc_type, exc_val, exc_tb):
+        lock = self._acquired.locks.pop()
         try:
             self._collection._save()
         finally:
-            self._collection._thread_lock.__exit__(exc_type, exc_val, exc_tb)
+            lock.__exit__(exc_type, exc_val, exc_tb)
 
 
 class SyncedCollection(Collection):
